@@ -1,6 +1,1035 @@
-//! C07 — not implemented yet.
-use mc_core::Ctx;
+//! C07 — an intent can be committed at most once before it expires.
+//!
+//! Three layers, all on the real code:
+//!
+//! * **Layer 1 (ring arithmetic, full scale, exhaustive)** — the real `TransactionTrackerSubstateV1`
+//!   (`partition_for_expiry_epoch`, `advance`) with the production constants, for every start partition,
+//!   every number of advances up to two ring revolutions and every expiry-epoch offset inside and around the
+//!   covered range, compared with a closed-form reference written from the ring description (DESIGN A.5):
+//!   range, block → partition map, injectivity, stability of the answer under `advance()`, and "the
+//!   partition handed back by `advance()` holds only expired blocks". Plus the same sweep on small rings.
+//! * **Layer 2 (real engine, scaled-down ring, explicit-state exploration)** — the tracker substate of a
+//!   test database is rewritten to 4 partitions × 2 epochs (the ring parameters live in the substate; the
+//!   engine is unmodified), static validation uses `max_epoch_range = (4-1)*2 = 6` (the relation the repo
+//!   asserts for the production constants, at equality). Real notarized V1 and V2 transactions (with a
+//!   signed subintent) with explicit epoch windows are committed (success / committed failure), epochs are
+//!   advanced with real round-change transactions, and in *every* reached state every stored transaction
+//!   is replayed byte-identically, re-signed (a different transaction carrying the same intent) and — for
+//!   subintents — inside a brand-new root transaction. Reference model: the set of committed
+//!   (intent, expiry) pairs, written from the statement.
+//! * **Layer 3 (thorough; real engine, production-size ring, long fixed histories)** — boundary schedules
+//!   around the first three rotations, around the partition-number wrap and around the 191st rotation, with
+//!   expiries at block boundaries ±1 and at the validation maximum; tens of thousands of epoch
+//!   transactions.
+use crate::explore::{explore_all, Item};
+use crate::ring::*;
+use mc_core::{par_for, BfsStats, Ctx, Level, Local, Machine};
+use mc_ledger::*;
+use radix_transactions::validation::*;
+use serde_json::{json, Map, Value};
+use std::collections::{BTreeMap, BTreeSet};
 
-pub fn run(_ctx: Ctx) -> ! {
-    mc_core::machinery_error("C07: not implemented")
+// ================================================================================================
+// Layer 1 — ring arithmetic
+// ================================================================================================
+
+#[derive(Clone, Copy, Debug)]
+struct RingParams {
+    lo: u8,
+    hi: u8,
+    epp: u64,
+}
+
+impl RingParams {
+    fn n(&self) -> u64 {
+        (self.hi - self.lo) as u64 + 1
+    }
+}
+
+/// Reference (DESIGN A.5): with origin (start_epoch, start_partition), expiry epoch e is covered iff
+/// start ≤ e < start + N·epp, and lives in partition lo + ((start_partition − lo) + (e − start)/epp) mod N.
+fn ref_partition(p: RingParams, start_epoch: u64, start_partition: u8, e: u64) -> Option<u8> {
+    if e < start_epoch || (e - start_epoch) as u128 >= p.n() as u128 * p.epp as u128 {
+        return None;
+    }
+    let block = (e - start_epoch) / p.epp;
+    Some(p.lo + (((start_partition - p.lo) as u64 + block) % p.n()) as u8)
+}
+
+fn real_partition(t: &TransactionTrackerSubstateV1, e: u64) -> Result<Option<u8>, String> {
+    mc_core::catch(|| t.partition_for_expiry_epoch(Epoch::of(e)))
+}
+
+/// One (parameters, start partition, start epoch) case: all advances 0..=k_max, all offsets.
+fn layer1_case(p: RingParams, sp: u8, s0: u64, k_max: u64, margin: u64, l: &mut Local) -> u64 {
+    let case = |k: u64, d: i64| json!({"layer": 1, "lo": p.lo, "hi": p.hi, "epp": p.epp, "start_partition": sp, "start_epoch": s0, "advances": k, "offset": d});
+    let mut t = TransactionTrackerSubstateV1 {
+        start_epoch: s0,
+        start_partition: sp,
+        partition_range_start_inclusive: p.lo,
+        partition_range_end_inclusive: p.hi,
+        epochs_per_partition: p.epp,
+    };
+    let span = p.n() * p.epp;
+    let mut prev: Vec<Option<u8>> = vec![];
+    let mut evals = 0u64;
+    for k in 0..=k_max {
+        // reference origin after k advances
+        let ref_start = s0 + k * p.epp;
+        let ref_sp = p.lo + (((sp - p.lo) as u64 + k) % p.n()) as u8;
+        let mut discarded: Option<u8> = None;
+        if k > 0 {
+            match mc_core::catch(|| t.advance()) {
+                Ok(d) => discarded = Some(d),
+                Err(e) => {
+                    l.violation("ring:advance-panicked", format!("advance() panicked: {e}"), case(k, 0));
+                    return evals;
+                }
+            }
+        }
+        if t.start_epoch != ref_start || t.start_partition != ref_sp {
+            l.violation(
+                "ring:origin-after-advance",
+                format!("after {k} advance(s): origin ({}, {}) but the ring description gives ({ref_start}, {ref_sp})", t.start_epoch, t.start_partition),
+                case(k, 0),
+            );
+            return evals;
+        }
+        // below / above the covered range
+        for d in 1..=margin {
+            if ref_start >= d {
+                evals += 1;
+                match real_partition(&t, ref_start - d) {
+                    Ok(None) => {}
+                    other => {
+                        l.violation("ring:covers-expired-epoch", format!("epoch start−{d} answered {other:?}, expected None"), case(k, -(d as i64)));
+                        return evals;
+                    }
+                }
+            }
+            evals += 1;
+            match real_partition(&t, ref_start + span + d - 1) {
+                Ok(None) => {}
+                other => {
+                    l.violation("ring:covers-beyond-range", format!("epoch start+{} answered {other:?}, expected None", span + d - 1), case(k, (span + d - 1) as i64));
+                    return evals;
+                }
+            }
+        }
+        // inside
+        let mut cur: Vec<Option<u8>> = Vec::with_capacity(span as usize);
+        for d in 0..span {
+            evals += 1;
+            let real = match real_partition(&t, ref_start + d) {
+                Ok(r) => r,
+                Err(e) => {
+                    l.violation("ring:lookup-panicked", format!("partition_for_expiry_epoch panicked: {e}"), case(k, d as i64));
+                    return evals;
+                }
+            };
+            let expect = ref_partition(p, ref_start, ref_sp, ref_start + d);
+            if real != expect {
+                l.violation("ring:partition-map", format!("offset {d}: real {real:?}, ring description {expect:?}"), case(k, d as i64));
+                return evals;
+            }
+            cur.push(real);
+        }
+        // laws on the *real* answers (independent of the closed form)
+        let mut blocks = BTreeSet::new();
+        for b in 0..p.n() {
+            let first = cur[(b * p.epp) as usize];
+            for j in 0..p.epp {
+                if cur[(b * p.epp + j) as usize] != first {
+                    l.violation("ring:block-split", format!("block {b} maps to more than one partition"), case(k, (b * p.epp + j) as i64));
+                    return evals;
+                }
+            }
+            blocks.insert(first);
+        }
+        if blocks.len() as u64 != p.n() || blocks.contains(&None) {
+            l.violation("ring:blocks-not-distinct", format!("{} distinct partitions for {} blocks", blocks.len(), p.n()), case(k, 0));
+            return evals;
+        }
+        if k > 0 {
+            let disc = discarded.unwrap();
+            // stability: every epoch still covered keeps its partition
+            for d in 0..(span - p.epp) {
+                if prev[(d + p.epp) as usize] != cur[d as usize] {
+                    l.violation(
+                        "ring:lookup-unstable-under-advance",
+                        format!("epoch at new offset {d}: partition {:?} before the advance, {:?} after", prev[(d + p.epp) as usize], cur[d as usize]),
+                        case(k, d as i64),
+                    );
+                    return evals;
+                }
+                if p.n() > 1 && cur[d as usize] == Some(disc) {
+                    l.violation("ring:discarded-partition-still-live", format!("advance() handed back partition {disc} but the live epoch at offset {d} maps to it"), case(k, d as i64));
+                    return evals;
+                }
+            }
+            // the discarded partition is exactly the one that held the block that is now wholly in the past …
+            for j in 0..p.epp {
+                if prev[j as usize] != Some(disc) {
+                    l.violation("ring:discarded-wrong-partition", format!("advance() handed back {disc}, the expired block lived in {:?}", prev[j as usize]), case(k, j as i64));
+                    return evals;
+                }
+            }
+            // … and is reused for the newly covered far block only
+            for j in 0..p.epp {
+                if cur[(span - p.epp + j) as usize] != Some(disc) {
+                    l.violation("ring:recycled-partition", format!("new far block maps to {:?}, the recycled partition is {disc}", cur[(span - p.epp + j) as usize]), case(k, (span - p.epp + j) as i64));
+                    return evals;
+                }
+            }
+            l.class("ring:advance-consistent");
+        }
+        l.class("ring:origin-checked");
+        prev = cur;
+    }
+    evals
+}
+
+fn layer1(ctx: &Ctx) -> (u64, Value) {
+    let prod = RingParams { lo: PARTITION_RANGE_START, hi: PARTITION_RANGE_END, epp: EPOCHS_PER_PARTITION };
+    // (params, start partition, start epoch, max advances, margin)
+    let mut cases: Vec<(RingParams, u8, u64, u64, u64)> = vec![];
+    let starts: Vec<u64> = ctx.pick(vec![2], vec![2, 1_000_003]);
+    for sp in prod.lo..=prod.hi {
+        for s in &starts {
+            let k = ctx.pick(prod.n() + 3, 2 * prod.n() + 3);
+            cases.push((prod, sp, *s, k, 250));
+        }
+    }
+    let n_prod = cases.len();
+    // small rings (incl. the 4 × 2 ring of layer 2 and rings ending at partition 255)
+    for lo in [65u8, 252] {
+        for n in 1u8..=5 {
+            if lo as u16 + n as u16 - 1 > 255 {
+                continue;
+            }
+            for epp in 1u64..=3 {
+                let p = RingParams { lo, hi: lo + (n - 1), epp };
+                for sp in p.lo..=p.hi {
+                    cases.push((p, sp, 0, 3 * p.n() + 2, epp + 2));
+                    cases.push((p, sp, 7, 3 * p.n() + 2, epp + 2));
+                }
+            }
+        }
+    }
+    let total = std::sync::atomic::AtomicU64::new(0);
+    par_for(ctx, &cases, |c, l| {
+        let n = layer1_case(c.0, c.1, c.2, c.3, c.4, l);
+        l.evals += n;
+        total.fetch_add(n, std::sync::atomic::Ordering::Relaxed);
+    });
+
+    // documented margin: coverage − one block ≥ max_epoch_range of every validation configuration
+    let mut l = Local::new();
+    let covered = (prod.n() - 1) * prod.epp;
+    for (name, cfg) in [("babylon", TransactionValidationConfig::babylon()), ("cuttlefish", TransactionValidationConfig::cuttlefish()), ("latest", TransactionValidationConfig::latest())] {
+        l.eval();
+        if covered < cfg.max_epoch_range {
+            l.violation(
+                "ring:coverage-below-validation-window",
+                format!("ring covers (N−1)·epp = {covered} epochs past the current block, validation config {name} allows windows of {}", cfg.max_epoch_range),
+                json!({"layer": 1, "config": name}),
+            );
+        } else {
+            l.class("ring:coverage-margin-ok");
+        }
+    }
+    // the ledger's own tracker really uses these constants, and its validation config too
+    {
+        let mut sim = new_sim();
+        let t = read_tracker(&sim);
+        let now = current_epoch(&mut sim);
+        let cfg = TransactionValidationConfig::load(sim.substate_db());
+        l.eval();
+        if t.partition_range_start_inclusive != prod.lo || t.partition_range_end_inclusive != prod.hi || t.epochs_per_partition != prod.epp {
+            mc_core::machinery_error(&format!("genesis tracker {t:?} does not use the exported production constants"));
+        }
+        if covered < cfg.max_epoch_range {
+            l.violation("ring:coverage-below-validation-window", format!("ledger validation config allows {} epochs, ring margin {covered}", cfg.max_epoch_range), json!({"layer": 1, "config": "ledger"}));
+        }
+        if !(t.start_epoch <= now && now < t.start_epoch + t.epochs_per_partition) {
+            l.info("genesis-tracker-origin-not-in-first-block");
+        }
+        l.class("ring:genesis-tracker-uses-production-constants");
+    }
+    ctx.merge(l);
+    let total = total.into_inner();
+    (total, json!({"production_cases": n_prod, "small_ring_cases": cases.len() - n_prod, "lookups": total}))
+}
+
+// ================================================================================================
+// Layer 2 — real engine on the scaled-down ring
+// ================================================================================================
+
+const RING_LO: u8 = 65;
+const RING_N: u8 = 4;
+const RING_EPP: u64 = 2;
+const SCALED_RANGE: u64 = (RING_N as u64 - 1) * RING_EPP;
+
+#[derive(Clone, Debug, PartialEq, Eq, Hash, PartialOrd, Ord)]
+pub enum Op {
+    NextEpoch,
+    /// new V1 transaction, window [now+s_off, now+s_off+len)
+    V1 { s_off: i8, len: u8, fail: bool },
+    /// new V2 transaction: root window (r_off, r_len), one child subintent with window (c_off, c_len)
+    V2 { r_off: i8, r_len: u8, c_off: i8, c_len: u8, root_fails: bool },
+    /// resubmit the transaction stored in `slot`: byte-identical, or re-signed (same intent, other payload)
+    Replay { slot: u8, resigned: bool },
+    /// a brand-new root transaction (window [now, now+1)) carrying the subintent stored in `slot`
+    ReuseSub { slot: u8, root_fails: bool },
+}
+
+fn b(x: bool) -> &'static str {
+    if x {
+        "1"
+    } else {
+        "0"
+    }
+}
+
+pub fn op_code(op: &Op) -> String {
+    match op {
+        Op::NextEpoch => "N".into(),
+        Op::V1 { s_off, len, fail } => format!("V1:{s_off}:{len}:{}", b(*fail)),
+        Op::V2 { r_off, r_len, c_off, c_len, root_fails } => format!("V2:{r_off}:{r_len}:{c_off}:{c_len}:{}", b(*root_fails)),
+        Op::Replay { slot, resigned } => format!("R:{slot}:{}", b(*resigned)),
+        Op::ReuseSub { slot, root_fails } => format!("U:{slot}:{}", b(*root_fails)),
+    }
+}
+
+pub fn op_parse(s: &str) -> Option<Op> {
+    let f: Vec<&str> = s.split(':').collect();
+    let i = |k: usize| f.get(k).and_then(|x| x.parse::<i64>().ok());
+    Some(match f[0] {
+        "N" => Op::NextEpoch,
+        "V1" => Op::V1 { s_off: i(1)? as i8, len: i(2)? as u8, fail: i(3)? != 0 },
+        "V2" => Op::V2 { r_off: i(1)? as i8, r_len: i(2)? as u8, c_off: i(3)? as i8, c_len: i(4)? as u8, root_fails: i(5)? != 0 },
+        "R" => Op::Replay { slot: i(1)? as u8, resigned: i(2)? != 0 },
+        "U" => Op::ReuseSub { slot: i(1)? as u8, root_fails: i(2)? != 0 },
+        _ => return None,
+    })
+}
+
+#[derive(Clone, Debug)]
+struct Intent {
+    hash: Hash,
+    start: u64,
+    end: u64,
+    sub: bool,
+}
+
+#[derive(Clone)]
+struct Slot {
+    v2: bool,
+    raw: RawNotarizedTransaction,
+    /// what is needed to rebuild a *different* transaction with the same intent
+    nonce: u64,
+    root_fails: bool,
+    root: Intent,
+    child: Option<(Intent, DetailedSignedPartialTransactionV2)>,
+}
+
+pub struct St {
+    sim: Sim,
+    /// current epoch as recorded by the ledger (read from the consensus manager substate)
+    now: u64,
+    /// reference model, from the statement: committed intents and their expiry (end of validity window)
+    committed: BTreeMap<Hash, u64>,
+    /// every intent this history ever got committed (for the informational stale-record scan)
+    ever: BTreeMap<Hash, u64>,
+    slots: Vec<Slot>,
+    commits_used: u8,
+    reuse_used: u8,
+    nonce: u64,
+}
+
+pub struct RingMachine {
+    root: Snap,
+    validator: TransactionValidator,
+    first_commits: Vec<Op>,
+    later_commits: Vec<Op>,
+    max_commits: u8,
+    max_reuse: u8,
+    /// keep replaying an intent for this many epochs after its expiry epoch
+    post_expiry: u64,
+}
+
+fn commit_alphabets(quick: bool) -> (Vec<Op>, Vec<Op>) {
+    let mut first = vec![];
+    let lens: &[u8] = if quick { &[1, 2, 6] } else { &[1, 2, 5, 6] };
+    for fail in [false, true] {
+        for s_off in [0i8, -1] {
+            for &len in lens {
+                first.push(Op::V1 { s_off, len, fail });
+            }
+        }
+    }
+    // not yet valid / longer than validation allows
+    first.push(Op::V1 { s_off: 1, len: 2, fail: false });
+    first.push(Op::V1 { s_off: 0, len: (SCALED_RANGE + 1) as u8, fail: false });
+    let child_windows: &[(i8, u8)] = if quick { &[(0, 2), (0, 6)] } else { &[(0, 1), (0, 2), (0, 5), (0, 6), (-1, 2), (-1, 6)] };
+    for root_fails in [false, true] {
+        for (r_off, r_len) in [(0i8, 1u8), (0, 6)] {
+            for &(c_off, c_len) in child_windows {
+                first.push(Op::V2 { r_off, r_len, c_off, c_len, root_fails });
+            }
+        }
+    }
+    let later = if quick {
+        vec![
+            Op::V1 { s_off: 0, len: 1, fail: false },
+            Op::V1 { s_off: 0, len: 6, fail: false },
+            Op::V1 { s_off: -1, len: 2, fail: true },
+            Op::V1 { s_off: 0, len: 5, fail: true },
+            Op::V2 { r_off: 0, r_len: 1, c_off: 0, c_len: 6, root_fails: false },
+            Op::V2 { r_off: 0, r_len: 6, c_off: 0, c_len: 2, root_fails: true },
+        ]
+    } else {
+        first.clone()
+    };
+    (first, later)
+}
+
+impl RingMachine {
+    fn new(quick: bool) -> RingMachine {
+        let mut sim = new_sim();
+        let now = current_epoch(&mut sim);
+        let t = read_tracker(&sim);
+        for p in t.partition_range_start_inclusive..=t.partition_range_end_inclusive {
+            if !partition_entries(&sim, p).is_empty() {
+                mc_core::machinery_error("genesis database already holds replay records");
+            }
+        }
+        // test-database setup: a 4-partition × 2-epoch ring starting at the current epoch
+        write_tracker(
+            &mut sim,
+            TransactionTrackerSubstateV1 {
+                start_epoch: now,
+                start_partition: RING_LO,
+                partition_range_start_inclusive: RING_LO,
+                partition_range_end_inclusive: RING_LO + RING_N - 1,
+                epochs_per_partition: RING_EPP,
+            },
+        );
+        let (first_commits, later_commits) = commit_alphabets(quick);
+        RingMachine {
+            root: sim.create_snapshot(),
+            validator: validator_with_range(SCALED_RANGE),
+            first_commits,
+            later_commits,
+            max_commits: 2,
+            max_reuse: 2,
+            post_expiry: if quick { 0 } else { 1 },
+        }
+    }
+
+    fn slot_alive(&self, st: &St, s: &Slot) -> bool {
+        let last = s.child.as_ref().map(|c| c.0.end).unwrap_or(0).max(s.root.end);
+        st.now <= last + self.post_expiry
+    }
+
+    /// Oracle for one submitted transaction carrying `carried` intents (root first).
+    /// Statement: (a) current epoch outside the validity window ⇒ rejected; (b) carrying an intent that was
+    /// committed (root: success or failure; subintent: success) ⇒ rejected while its window could admit it
+    /// (after that (a) applies). Nothing else is demanded.
+    fn judge(&self, st: &mut St, what: &str, carried: &[Intent], outcome: &Outcome) -> Result<String, (String, String)> {
+        let lo = carried.iter().map(|i| i.start).max().unwrap();
+        let hi = carried.iter().map(|i| i.end).min().unwrap();
+        let outside = !(lo <= st.now && st.now < hi);
+        let replayed: Vec<&Intent> = carried.iter().filter(|i| st.committed.contains_key(&i.hash)).collect();
+        let must_reject = outside || !replayed.is_empty();
+        let describe = |i: &Intent| format!("{}[{},{})", if i.sub { "subintent" } else { "intent" }, i.start, i.end);
+        if let Outcome::Panicked(p) = outcome {
+            return Err((
+                format!("panic:{}", p.rsplit(" @ ").next().unwrap_or("?")),
+                format!("{what} at epoch {} (carrying {}) crashed the engine instead of being committed or rejected: {p}", st.now, carried.iter().map(describe).collect::<Vec<_>>().join(" + ")),
+            ));
+        }
+        if must_reject && outcome.committed() {
+            let (key, why) = if let Some(i) = replayed.first() {
+                (
+                    format!("replay-accepted:{}", if i.sub { "subintent" } else { "transaction-intent" }),
+                    format!("{} was committed before (expiry {}), current epoch {}", describe(i), i.end, st.now),
+                )
+            } else {
+                ("outside-window-accepted".to_string(), format!("current epoch {} is outside the validity window [{lo},{hi})", st.now))
+            };
+            return Err((key, format!("{what}: {} although {why}", outcome.label())));
+        }
+        if outcome.committed() {
+            // update the reference model from the statement: root always, subintents on success only
+            for i in carried {
+                if !i.sub || *outcome == Outcome::Success {
+                    st.committed.insert(i.hash, i.end);
+                    st.ever.insert(i.hash, i.end);
+                }
+            }
+        }
+        let class = match (must_reject, outcome) {
+            (true, Outcome::Invalid(_)) | (false, Outcome::Invalid(_)) => format!("{what}:{}", outcome.label()),
+            (true, _) => format!("{what}:{}:{}", if !replayed.is_empty() { "replay" } else { "outside-window" }, outcome.label()),
+            (false, o) if o.committed() => format!("{what}:fresh:{}", outcome.label()),
+            (false, _) => {
+                // the statement does not say a fresh in-window intent must be accepted
+                format!("{what}:fresh-not-committed:{}", outcome.label())
+            }
+        };
+        Ok(class)
+    }
+
+    /// Informational scan of the real ring after a commit (the statement is silent about storage): every
+    /// readable record of an intent known to this history sits in the partition whose current block contains
+    /// its expiry epoch; anything else is a stale record in a recycled partition.
+    fn scan_ring(&self, st: &St) -> Vec<&'static str> {
+        let t = read_tracker(&st.sim);
+        let mut infos = vec![];
+        for idx in 0..RING_N {
+            let p = RING_LO + ((t.start_partition - RING_LO) + idx) % RING_N;
+            let lo = t.start_epoch + idx as u64 * RING_EPP;
+            for (h, _) in partition_entries(&st.sim, p) {
+                match st.ever.get(&h) {
+                    Some(e) if lo <= *e && *e < lo + RING_EPP => {}
+                    Some(_) => infos.push("stale-record-in-recycled-partition"),
+                    None => infos.push("record-of-unknown-intent"),
+                }
+            }
+        }
+        infos
+    }
+}
+
+impl Machine for RingMachine {
+    type Op = Op;
+    type St = St;
+
+    fn init(&self) -> St {
+        let mut sim = sim_from(&self.root);
+        let now = current_epoch(&mut sim);
+        St { sim, now, committed: BTreeMap::new(), ever: BTreeMap::new(), slots: vec![], commits_used: 0, reuse_used: 0, nonce: 1000 }
+    }
+
+    fn fork(&self, st: &St) -> Option<St> {
+        Some(St {
+            sim: sim_from(&st.sim.create_snapshot()),
+            now: st.now,
+            committed: st.committed.clone(),
+            ever: st.ever.clone(),
+            slots: st.slots.clone(),
+            commits_used: st.commits_used,
+            reuse_used: st.reuse_used,
+            nonce: st.nonce,
+        })
+    }
+
+    fn terminal(&self, st: &St) -> bool {
+        !st.slots.is_empty() && st.slots.iter().all(|s| !self.slot_alive(st, s))
+    }
+
+    fn ops(&self, st: &St, _depth: usize) -> Vec<Op> {
+        if st.slots.is_empty() {
+            // the phases of the ring are reached by the item prefixes (k × NextEpoch); see run()
+            return self.first_commits.clone();
+        }
+        let mut ops = vec![Op::NextEpoch];
+        for (i, s) in st.slots.iter().enumerate() {
+            if !self.slot_alive(st, s) {
+                continue;
+            }
+            ops.push(Op::Replay { slot: i as u8, resigned: false });
+            ops.push(Op::Replay { slot: i as u8, resigned: true });
+            if s.v2 && st.reuse_used < self.max_reuse {
+                ops.push(Op::ReuseSub { slot: i as u8, root_fails: false });
+                ops.push(Op::ReuseSub { slot: i as u8, root_fails: true });
+            }
+        }
+        if st.commits_used < self.max_commits {
+            ops.extend(self.later_commits.iter().cloned());
+        }
+        ops
+    }
+
+    fn step(&self, st: &mut St, op: &Op) -> Result<String, (String, String)> {
+        let abs = |off: i8| (st.now as i64 + off as i64) as u64;
+        let class = match op {
+            Op::NextEpoch => {
+                match next_epoch(&mut st.sim) {
+                    Ok(_) => {}
+                    Err(e) => return Err(("epoch-change-failed".into(), format!("round change at epoch {} : {e}", st.now))),
+                }
+                st.now += 1;
+                if current_epoch(&mut st.sim) != st.now {
+                    mc_core::machinery_error("epoch bookkeeping diverged");
+                }
+                "next-epoch".to_string()
+            }
+            Op::V1 { s_off, len, fail } => {
+                let (s, e) = (abs(*s_off), abs(*s_off) + *len as u64);
+                st.nonce += 1;
+                let (raw, h) = build_v1(s, e, st.nonce as u32, *fail, false);
+                let root = Intent { hash: h.0, start: s, end: e, sub: false };
+                let (out, _) = submit(&mut st.sim, &self.validator, &raw);
+                let class = self.judge(st, "v1", &[root.clone()], &out)?;
+                if !matches!(out, Outcome::Invalid(_)) {
+                    st.slots.push(Slot { v2: false, raw, nonce: st.nonce, root_fails: *fail, root, child: None });
+                    st.commits_used += 1;
+                }
+                if let Outcome::Success | Outcome::Failure(_) = out {
+                    if (*fail) != matches!(out, Outcome::Failure(_)) {
+                        mc_core::machinery_error(&format!("v1 menu transaction fail={fail} ended as {}", out.label()));
+                    }
+                }
+                class
+            }
+            Op::V2 { r_off, r_len, c_off, c_len, root_fails } => {
+                let (rs, re) = (abs(*r_off), abs(*r_off) + *r_len as u64);
+                let (cs, ce) = (abs(*c_off), abs(*c_off) + *c_len as u64);
+                st.nonce += 2;
+                let partial = build_sub(cs, ce, st.nonce - 1);
+                let (raw, h) = build_v2(rs, re, st.nonce, &partial, *root_fails, false);
+                let root = Intent { hash: h.0, start: rs, end: re, sub: false };
+                let child = Intent { hash: partial.root_subintent_hash.0, start: cs, end: ce, sub: true };
+                let (out, _) = submit(&mut st.sim, &self.validator, &raw);
+                let class = self.judge(st, "v2", &[root.clone(), child.clone()], &out)?;
+                if !matches!(out, Outcome::Invalid(_)) {
+                    st.slots.push(Slot { v2: true, raw, nonce: st.nonce, root_fails: *root_fails, root, child: Some((child, partial)) });
+                    st.commits_used += 1;
+                }
+                if let Outcome::Success | Outcome::Failure(_) = out {
+                    if (*root_fails) != matches!(out, Outcome::Failure(_)) {
+                        mc_core::machinery_error(&format!("v2 menu transaction root_fails={root_fails} ended as {}", out.label()));
+                    }
+                }
+                class
+            }
+            Op::Replay { slot, resigned } => {
+                let s = st.slots[*slot as usize].clone();
+                let raw = if !*resigned {
+                    s.raw.clone()
+                } else if s.v2 {
+                    let (raw, h) = build_v2(s.root.start, s.root.end, s.nonce, &s.child.as_ref().unwrap().1, s.root_fails, true);
+                    if h.0 != s.root.hash || raw == s.raw {
+                        mc_core::machinery_error("re-signed v2 transaction does not carry the same intent in a different payload");
+                    }
+                    raw
+                } else {
+                    let (raw, h) = build_v1(s.root.start, s.root.end, s.nonce as u32, s.root_fails, true);
+                    if h.0 != s.root.hash || raw == s.raw {
+                        mc_core::machinery_error("re-signed v1 transaction does not carry the same intent in a different payload");
+                    }
+                    raw
+                };
+                let mut carried = vec![s.root.clone()];
+                if let Some((c, _)) = &s.child {
+                    carried.push(c.clone());
+                }
+                let (out, _) = submit(&mut st.sim, &self.validator, &raw);
+                self.judge(st, if *resigned { "resubmit-resigned" } else { "resubmit-identical" }, &carried, &out)?
+            }
+            Op::ReuseSub { slot, root_fails } => {
+                let s = st.slots[*slot as usize].clone();
+                let (child, partial) = s.child.clone().expect("ReuseSub on a v2 slot");
+                st.nonce += 1;
+                let (raw, h) = build_v2(st.now, st.now + 1, st.nonce, &partial, *root_fails, false);
+                let root = Intent { hash: h.0, start: st.now, end: st.now + 1, sub: false };
+                let (out, _) = submit(&mut st.sim, &self.validator, &raw);
+                let class = self.judge(st, "subintent-in-new-transaction", &[root, child], &out)?;
+                if out.committed() {
+                    st.reuse_used += 1;
+                }
+                class
+            }
+        };
+        Ok(class)
+    }
+
+    /// Canonical form of what the property observes, relative to the current epoch (the engine's replay
+    /// logic depends on epochs only through `epoch − start_epoch`, `expiry − epoch` and the absolute
+    /// partition numbers, so histories that differ by a time shift of whole ring revolutions have the same
+    /// futures; transaction hashes differ between histories and are not observed):
+    /// real ring origin (start partition, epoch − start_epoch); per stored transaction its kind, windows
+    /// relative to now, what the model holds as committed, and in which real partition (relative to the ring
+    /// origin) a record is readable; the remaining budgets.
+    fn fingerprint(&self, st: &St) -> Vec<u8> {
+        let t = read_tracker(&st.sim);
+        let mut s = format!("sp{};off{};c{};u{};", t.start_partition, st.now as i64 - t.start_epoch as i64, st.commits_used, st.reuse_used);
+        let parts: Vec<BTreeMap<Hash, String>> = (0..RING_N).map(|i| partition_entries(&st.sim, RING_LO + i)).collect();
+        let rel = |x: u64| (x as i64 - st.now as i64).max(-3);
+        for slot in &st.slots {
+            if !self.slot_alive(st, slot) {
+                s.push_str("dead;");
+                continue;
+            }
+            let one = |i: &Intent| -> String {
+                let place: Vec<String> = (0..RING_N as usize).filter(|p| parts[*p].contains_key(&i.hash)).map(|p| format!("{}={}", p, parts[p][&i.hash])).collect();
+                format!("[{},{},{},{}]", rel(i.start).min(1), rel(i.end), b(st.committed.contains_key(&i.hash)), place.join(","))
+            };
+            s.push_str(if slot.v2 { "v2" } else { "v1" });
+            s.push_str(b(slot.root_fails));
+            s.push_str(&one(&slot.root));
+            if let Some((c, _)) = &slot.child {
+                s.push_str(&one(c));
+            }
+            s.push(';');
+        }
+        s.into_bytes()
+    }
+}
+
+/// The info-level ring scan is done on every *new* state by wrapping the machine's step.
+struct Scanning<'a>(&'a RingMachine, std::sync::Mutex<BTreeMap<&'static str, u64>>);
+
+impl<'a> Machine for Scanning<'a> {
+    type Op = Op;
+    type St = St;
+    fn init(&self) -> St {
+        self.0.init()
+    }
+    fn fork(&self, st: &St) -> Option<St> {
+        self.0.fork(st)
+    }
+    fn terminal(&self, st: &St) -> bool {
+        self.0.terminal(st)
+    }
+    fn ops(&self, st: &St, d: usize) -> Vec<Op> {
+        self.0.ops(st, d)
+    }
+    fn fingerprint(&self, st: &St) -> Vec<u8> {
+        self.0.fingerprint(st)
+    }
+    fn step(&self, st: &mut St, op: &Op) -> Result<String, (String, String)> {
+        let class = self.0.step(st, op)?;
+        let infos = self.0.scan_ring(st);
+        if !infos.is_empty() {
+            let mut g = self.1.lock().unwrap();
+            for i in infos {
+                *g.entry(i).or_insert(0) += 1;
+            }
+        }
+        Ok(class)
+    }
+}
+
+fn layer2(ctx: &Ctx) -> (BfsStats, Value) {
+    let m = RingMachine::new(ctx.quick());
+    let scanning = Scanning(&m, std::sync::Mutex::new(BTreeMap::new()));
+    // item prefixes: k real epoch changes from the rewritten root; k = 0..7 are the 8 phases of the ring
+    // (4 start partitions × 2 epochs), k = 8 (thorough) is phase 0 again after a full revolution, so every
+    // explored history runs on a ring that has really rotated k/2 times before the first commit and keeps
+    // rotating for up to ~16 more epochs.
+    let k_max = ctx.pick(7usize, 8);
+    let mut items: Vec<Item<Scanning>> = vec![];
+    let mut st = m.init();
+    let mut prefix: Vec<Op> = vec![];
+    let mut phases = vec![];
+    let mut l = Local::new();
+    for k in 0..=k_max {
+        if k > 0 {
+            match m.step(&mut st, &Op::NextEpoch) {
+                Ok(c) => l.class(&c),
+                Err((key, what)) => {
+                    l.violation(key, what, json!({"layer": 2, "base": "scaled-ring", "history": prefix.iter().map(op_code).collect::<Vec<_>>()}));
+                    break;
+                }
+            }
+            prefix.push(Op::NextEpoch);
+        }
+        let t = read_tracker(&st.sim);
+        phases.push(json!({"k": k, "start_partition": t.start_partition, "epoch_minus_start_epoch": st.now as i64 - t.start_epoch as i64}));
+        items.push(Item { tag: format!("scaled-ring(4x2,max_epoch_range=6)+{k}-epochs"), prefix: prefix.clone(), start: m.fork(&st).unwrap() });
+    }
+    ctx.merge(l);
+    // one item per (phase, first commit) so that the parallel work is balanced: expand the first layer here
+    let mut fine: Vec<Item<Scanning>> = vec![];
+    let mut l = Local::new();
+    let mut first_layer = BfsStats::default();
+    first_layer.states = items.len() as u64;
+    for it in items {
+        for op in m.first_commits.iter() {
+            let mut child = m.fork(&it.start).unwrap();
+            first_layer.transitions += 1;
+            l.evals += 1;
+            let mut hist = it.prefix.clone();
+            hist.push(op.clone());
+            match scanning.step(&mut child, op) {
+                Ok(c) => {
+                    l.class(&c);
+                    if !child.slots.is_empty() {
+                        first_layer.states += 1;
+                        fine.push(Item { tag: it.tag.clone(), prefix: hist, start: child });
+                    }
+                }
+                Err((key, what)) => l.violation(key, what, json!({"layer": 2, "base": it.tag, "history": hist.iter().map(op_code).collect::<Vec<_>>()})),
+            }
+        }
+    }
+    ctx.merge(l);
+    let n_items = fine.len();
+    let cap = ctx.pick(50.0, 1000.0);
+    let mut stats = explore_all(ctx, &scanning, fine, &op_code, cap);
+    // explore_item counts each item's start state; they were counted in first_layer already
+    stats.states = stats.states - n_items as u64 + first_layer.states;
+    stats.transitions += first_layer.transitions + k_max as u64;
+    for (k, v) in scanning.1.lock().unwrap().iter() {
+        ctx.info(k, *v);
+    }
+    let detail = json!({
+        "ring": {"partitions": RING_N, "epochs_per_partition": RING_EPP, "max_epoch_range": SCALED_RANGE},
+        "phases": phases,
+        "first_commit_alphabet": m.first_commits.iter().map(op_code).collect::<Vec<_>>(),
+        "later_commit_alphabet": m.later_commits.iter().map(op_code).collect::<Vec<_>>(),
+        "max_commits": m.max_commits, "max_subintent_reuse_commits": m.max_reuse, "replays_after_expiry_epochs": m.post_expiry,
+        "work_items": n_items,
+    });
+    (stats, detail)
+}
+
+// ================================================================================================
+// Layer 3 — production-size ring on the real engine, long boundary schedules (thorough)
+// ================================================================================================
+
+struct Live {
+    what: &'static str,
+    commit_epoch: u64,
+    end: u64,
+    exe: Option<ExecutableTransaction>,
+    partial: Option<DetailedSignedPartialTransactionV2>,
+}
+
+struct Scenario {
+    name: &'static str,
+    start_partition: Option<u8>,
+    rotations: Vec<u64>,
+}
+
+fn layer3_run(sc: &Scenario) -> (Local, u64, u64) {
+    let mut l = Local::new();
+    let mut sim = new_sim();
+    let validator = *sim.transaction_validator();
+    let max_range = validator.config().max_epoch_range;
+    let mut t = read_tracker(&sim);
+    if let Some(sp) = sc.start_partition {
+        t.start_partition = sp;
+        write_tracker(&mut sim, t.clone());
+    }
+    let (s0, epp) = (t.start_epoch, t.epochs_per_partition);
+    let mut now = current_epoch(&mut sim);
+    let commit_epochs: BTreeSet<u64> = sc.rotations.iter().flat_map(|r| [s0 + r * epp - 2, s0 + r * epp - 1, s0 + r * epp]).filter(|e| *e >= now).collect();
+    let end_epoch = commit_epochs.iter().max().unwrap() + max_range + 2;
+    let mut live: Vec<Live> = vec![];
+    let mut nonce = 50_000u64;
+    let mut txs = 0u64;
+    let mut epochs = 0u64;
+    let case = |now: u64, what: &str, c: u64, e: u64| json!({"layer": 3, "scenario": sc.name, "epoch": now, "what": what, "committed_at": c, "expiry": e});
+    loop {
+        // commits
+        if commit_epochs.contains(&now) {
+            let nb = s0 + ((now - s0) / epp + 1) * epp;
+            let fb = s0 + ((now + max_range - s0) / epp) * epp;
+            let mut ends: BTreeSet<u64> = [now + 1, now + 2, nb - 1, nb, nb + 1, nb + epp - 1, nb + epp, nb + epp + 1, fb - 1, fb, fb + 1, now + max_range - 1, now + max_range].into_iter().collect();
+            ends.retain(|e| *e > now && *e <= now + max_range);
+            for e in ends {
+                let special = e == nb || e == fb || e == now + max_range;
+                let mut kinds: Vec<&'static str> = vec!["v1-success"];
+                if special {
+                    kinds.extend(["v1-failure", "v2-success", "v2-root-failure"]);
+                }
+                for kind in kinds {
+                    nonce += 2;
+                    let (raw, partial) = match kind {
+                        "v1-success" => (build_v1(now, e, nonce as u32, false, false).0, None),
+                        "v1-failure" => (build_v1(now, e, nonce as u32, true, false).0, None),
+                        _ => {
+                            let p = build_sub(now, e, nonce - 1);
+                            (build_v2(now, now + 1, nonce, &p, kind == "v2-root-failure", false).0, Some(p))
+                        }
+                    };
+                    let exe = match raw.validate(&validator) {
+                        Ok(v) => v.create_executable(),
+                        Err(err) => mc_core::machinery_error(&format!("layer 3 transaction invalid: {err:?}")),
+                    };
+                    let (out, _) = submit_executable(&mut sim, exe.clone());
+                    txs += 1;
+                    l.eval();
+                    match &out {
+                        Outcome::Panicked(p) => {
+                            l.violation(format!("panic:{}", p.rsplit(" @ ").next().unwrap_or("?")), format!("{kind} with expiry {e} at epoch {now} crashed the engine: {p}"), case(now, kind, now, e));
+                            continue;
+                        }
+                        o if !o.committed() => {
+                            l.info("layer3-fresh-intent-not-committed");
+                            continue;
+                        }
+                        _ => {}
+                    }
+                    l.class(&format!("prod-ring:{kind}:{}", if out == Outcome::Success { "commit-success" } else { "commit-failure" }));
+                    match kind {
+                        "v1-success" | "v1-failure" => live.push(Live { what: kind, commit_epoch: now, end: e, exe: Some(exe), partial: None }),
+                        "v2-success" => live.push(Live { what: "subintent-of-successful-parent", commit_epoch: now, end: e, exe: None, partial }),
+                        _ => {
+                            // the child of a failed parent is not consumed: a new parent may commit it now
+                            nonce += 1;
+                            let p = partial.unwrap();
+                            let raw = build_v2(now, now + 1, nonce, &p, false, false).0;
+                            let (out2, _) = submit(&mut sim, &validator, &raw);
+                            txs += 1;
+                            if out2 == Outcome::Success {
+                                l.class("prod-ring:subintent-after-failed-parent:commit-success");
+                                live.push(Live { what: "subintent-committed-after-failed-parent", commit_epoch: now, end: e, exe: None, partial: Some(p) });
+                            } else if let Outcome::Panicked(pn) = &out2 {
+                                l.violation(format!("panic:{}", pn.rsplit(" @ ").next().unwrap_or("?")), format!("reuse of an unconsumed subintent crashed the engine: {pn}"), case(now, kind, now, e));
+                            } else {
+                                l.info("layer3-unconsumed-subintent-not-committed");
+                            }
+                        }
+                    }
+                }
+            }
+        }
+        // replays: right after the commit, around every rotation of the ring, and around the expiry
+        let phase = (now - s0) % epp;
+        let near_rotation = phase == epp - 1 || phase == 0 || phase == 1;
+        live.retain(|x| now <= x.end);
+        for x in live.iter() {
+            if !(near_rotation || now <= x.commit_epoch + 1 || now + 1 >= x.end) {
+                continue;
+            }
+            let (out, _) = match (&x.exe, &x.partial) {
+                (Some(exe), _) => submit_executable(&mut sim, exe.clone()),
+                (None, Some(p)) => {
+                    nonce += 1;
+                    let raw = build_v2(now, now + 1, nonce, p, false, false).0;
+                    submit(&mut sim, &validator, &raw)
+                }
+                _ => unreachable!(),
+            };
+            txs += 1;
+            l.eval();
+            match out {
+                Outcome::Rejected(r) => l.class(&format!("prod-ring:replay:reject:{r}")),
+                Outcome::Panicked(p) => l.violation(
+                    format!("panic:{}", p.rsplit(" @ ").next().unwrap_or("?")),
+                    format!("replay of {} (committed at {}, expiry {}) at epoch {now} crashed the engine: {p}", x.what, x.commit_epoch, x.end),
+                    case(now, x.what, x.commit_epoch, x.end),
+                ),
+                o => l.violation(
+                    format!("replay-accepted:{}", if x.partial.is_some() { "subintent" } else { "transaction-intent" }),
+                    format!("production ring ({}): {} committed at epoch {} with expiry {} was accepted again at epoch {now}: {}", sc.name, x.what, x.commit_epoch, x.end, o.label()),
+                    case(now, x.what, x.commit_epoch, x.end),
+                ),
+            }
+        }
+        if now >= end_epoch || (live.is_empty() && commit_epochs.iter().all(|c| *c < now)) {
+            break;
+        }
+        if let Err(e) = next_epoch(&mut sim) {
+            l.violation("epoch-change-failed", format!("production ring ({}), epoch {now}: {e}", sc.name), case(now, "next-epoch", 0, 0));
+            break;
+        }
+        now += 1;
+        epochs += 1;
+        txs += 1;
+    }
+    // the ring really went round
+    let t_end = read_tracker(&sim);
+    l.class(&format!("prod-ring:{}:rotations-performed>={}", sc.name, ((t_end.start_epoch - s0) / epp).min(190) / 10 * 10));
+    (l, txs, epochs)
+}
+
+fn layer3(ctx: &Ctx) -> Value {
+    let scenarios = vec![
+        Scenario { name: "unmodified-first-rotations", start_partition: None, rotations: vec![1, 2, 3] },
+        Scenario { name: "unmodified-rotations-190-192", start_partition: None, rotations: vec![190, 191, 192] },
+        Scenario { name: "start-partition-170(number-wrap-in-first-window)", start_partition: Some(170), rotations: vec![1, 2] },
+        Scenario { name: "start-partition-254", start_partition: Some(254), rotations: vec![1, 2, 3] },
+        Scenario { name: "start-partition-255", start_partition: Some(255), rotations: vec![1, 2] },
+    ];
+    let results = mc_core::par_map(ctx.threads, &scenarios, |sc| layer3_run(sc));
+    let mut out = vec![];
+    for (sc, (l, txs, epochs)) in scenarios.iter().zip(results) {
+        out.push(json!({"scenario": sc.name, "start_partition_override": sc.start_partition, "commit_rotations": sc.rotations, "transactions": txs, "epoch_changes": epochs}));
+        ctx.merge(l);
+    }
+    Value::Array(out)
+}
+
+// ================================================================================================
+
+fn replay(ctx: Ctx) -> ! {
+    let case = ctx.read_replay_case().unwrap();
+    let layer = case.get("layer").and_then(|x| x.as_u64()).unwrap_or(2);
+    let mut l = Local::new();
+    match layer {
+        1 => {
+            let g = |k: &str| case.get(k).and_then(|x| x.as_u64()).unwrap_or(0);
+            let p = RingParams { lo: g("lo") as u8, hi: g("hi") as u8, epp: g("epp") };
+            layer1_case(p, g("start_partition") as u8, g("start_epoch"), g("advances"), p.epp + 250, &mut l);
+        }
+        3 => {
+            println!("layer 3 cases are re-run by `./check C07 thorough` (scenario {:?})", case.get("scenario"));
+        }
+        _ => {
+            let m = RingMachine::new(false);
+            let mut st = m.init();
+            let hist: Vec<Op> = case
+                .get("history")
+                .and_then(|h| h.as_array())
+                .map(|a| a.iter().filter_map(|x| x.as_str().and_then(op_parse)).collect())
+                .unwrap_or_default();
+            for op in &hist {
+                let t = read_tracker(&st.sim);
+                print!("epoch {} ring(start_epoch {}, start_partition {})  {:<14} -> ", st.now, t.start_epoch, t.start_partition, op_code(op));
+                match m.step(&mut st, op) {
+                    Ok(c) => println!("{c}"),
+                    Err((k, w)) => {
+                        println!("VIOLATION {k}: {w}");
+                        l.violation(k, w, case.clone());
+                        break;
+                    }
+                }
+            }
+        }
+    }
+    for v in &l.violations {
+        println!("reproduced: {} :: {}", v.key, v.what);
+    }
+    ctx.merge(l);
+    ctx.finish(Level::ModelChecking, "replay", 0, false, Map::new(), &[])
+}
+
+pub fn run(ctx: Ctx) -> ! {
+    if ctx.replay.is_some() {
+        replay(ctx);
+    }
+    let (l1_evals, l1_detail) = layer1(&ctx);
+    let t1 = ctx.elapsed_s();
+    let (stats, l2_detail) = layer2(&ctx);
+    let t2 = ctx.elapsed_s();
+    let l3_detail = if ctx.quick() { json!("thorough tier only") } else { layer3(&ctx) };
+    let t3 = ctx.elapsed_s();
+    let mut cov = stats.coverage();
+    cov.insert("layer1_ring_arithmetic".into(), l1_detail);
+    cov.insert("layer2_scaled_ring".into(), l2_detail);
+    cov.insert("layer3_production_ring_histories".into(), l3_detail);
+    cov.insert("wall_s_by_layer".into(), json!([t1, t2 - t1, t3 - t2]));
+    let _ = l1_evals;
+    let exhaustive = !stats.capped;
+    ctx.finish(
+        Level::ModelChecking,
+        "layer 1: every (start partition, number of advances ≤ 1–2 revolutions, expiry offset in and ±250 around the covered range) on the real tracker methods with production constants, plus all small rings (N ≤ 5, epochs/partition ≤ 3); \
+         layer 2: depth-first to fixpoint over all histories = k ≤ 7–8 real epoch changes, a first commit from the full alphabet, then any interleaving of epoch changes, ≤ 1 further commit, ≤ 2 committing subintent re-uses, and in every state all replays (identical / re-signed / subintent in a new transaction) of every stored transaction, until every stored intent is past its expiry; every transition is executed on the real engine; \
+         states are de-duplicated by a time-shift-invariant fingerprint of the real ring + model; a state is non-trivial when its fingerprint is new; layer 3 (thorough): fixed long boundary schedules on the production-size ring",
+        stats.states,
+        exhaustive,
+        cov,
+        &[
+            "layer 2 runs on a test database whose tracker substate was rewritten to a 4 x 2 ring and validates with max_epoch_range = 6; the engine code is unmodified",
+            "epochs advance by one per round-change transaction (C44), so the ring is never more than one block behind",
+            "panics escaping the engine while processing a validated transaction or an epoch change are reported as violations (the operation is defined and must end in a commit or a rejection)",
+            "storage hygiene (stale records in recycled partitions) is informational: the statement does not mention it",
+        ],
+    )
 }
